@@ -238,6 +238,13 @@ func (b *Buffer) Read(packet []byte) (n int, err error) { //nolint:gocognit,cycl
 				// in order to improve cache locality.
 				b.head = 0
 				b.tail = 0
+			} else if !b.closed {
+				// more packets are buffered: pass the wake-up token on, another
+				// reader may be waiting for the one we have just consumed.
+				select {
+				case b.notify <- struct{}{}:
+				default:
+				}
 			}
 
 			b.count--
